@@ -345,13 +345,22 @@ func ruleTBTokens(r *core.Reporter) {
 				}
 				if capArg && nonNeg {
 					// the added amount is non-negative: guarded by elapsed > 0
-					if _, g := ir.GuardedBy(fn, ir.Entry(fn), st, true, func(a ir.Atom) bool {
+					_, g1 := ir.GuardedBy(fn, ir.Entry(fn), st, true, func(a ir.Atom) bool {
 						if a.V != nil || a.Op != token.LSS {
 							return false
 						}
 						z, okc := ir.ConstFloat(a.X)
 						return okc && z == 0
-					}); g {
+					})
+					// guard-clause form: `if x <= 0 { return }`
+					_, g2 := ir.GuardedBy(fn, ir.Entry(fn), st, false, func(a ir.Atom) bool {
+						if a.V != nil || a.Op != token.LEQ {
+							return false
+						}
+						z, okc := ir.ConstFloat(a.Y)
+						return okc && z == 0
+					})
+					if g1 || g2 {
 						r.Held(key+"/refill", 1, "tokens = min(capacity, tokens + positive amount)")
 						continue
 					}
@@ -493,6 +502,12 @@ func ruleTBPenalty(r *core.Reporter) {
 				// 0 < elapsed  (elapsed > 0): the false side credits nothing
 				if z, okz := ir.ConstFloat(a.X); okz && z == 0 && sub != nil && dependsOn(a.Y, sub, map[ssa.Value]bool{}) {
 					skip[ii.If.Block()] = ii.EdgeWhen(false)
+				}
+			}
+			if a.V == nil && a.Op == token.LEQ {
+				// elapsed <= 0: the true side credits nothing
+				if z, okz := ir.ConstFloat(a.Y); okz && z == 0 && sub != nil && dependsOn(a.X, sub, map[ssa.Value]bool{}) {
+					skip[ii.If.Block()] = ii.EdgeWhen(true)
 				}
 			}
 		}
